@@ -1,5 +1,5 @@
 (* Composite correspondence driver (C09, C10, C11).
-   usage: composite_model [fix=0|1] [fix11=0|1] [fuel=N] [cover=0|1]
+   usage: composite_model [fix=0|1] [fix11=0|1] [fuel=N] [cap=N states] [budget=seconds per trace] [cover=0|1]
    stdin: the output of harness/cmd/composite:
      CASE id family pool n name:style:exit:rk ...   SCRIPT json   E <event> ...   OUTCOME o   END
      M old new v          (check A, hasMembershipChanged observed through Reload)
@@ -8,9 +8,11 @@
 open Model
 open Util
 
-let fix = ref false
-let fix11 = ref false
+let fix = ref true
+let fix11 = ref true
 let fuel = ref 20000
+let cap = ref 3000
+let budget = ref 2.5
 let cover = ref true
 
 let toks s = List.filter (fun x -> x <> "") (String.split_on_char ' ' s)
@@ -169,12 +171,24 @@ let finish (c : case) =
   let n = List.length evs in
   nevents := !nevents + n;
   nparks := !nparks + c.parks;
-  let (finals, ok) = accept p (nat_of_int !fuel) evs in
+  let t0 = Sys.time () in
+  (* incremental acceptance (accept0/accept1, sound by CompositeBase.accept0_sound/accept1_sound)
+     with a frontier cap and a CPU budget per trace: exceeding either = inconclusive, never an alarm *)
+  let f = nat_of_int !fuel in
+  let rec go (s, ok) d = function
+    | [] -> (s, ok, d)
+    | e :: rest ->
+      if List.length s > !cap || Sys.time () -. t0 > !budget then ([], false, d)
+      else begin
+        let (s', ok') = accept1 p f s e in
+        if s' = [] then ([], ok && ok', d) else go (s', ok && ok') (d + 1) rest
+      end in
+  let (finals, ok, d) = go (accept0 p f) 0 evs in
+  let t1 = Sys.time () in
   let acc =
     if finals <> [] then (incr nacc; "1")
     else if not ok then (incr ninc; "inc")
     else (incr nrej; "0") in
-  let d = if finals = [] then int_of_nat (depth p (nat_of_int !fuel) evs) else n in
   let at = if finals = [] && d < n then String.concat "_" (toks (snd (List.nth evl d))) else "-" in
   let nb = if c.blocked = "-" || c.blocked = "" then 0 else List.length (String.split_on_char ',' c.blocked) in
   if nb > 0 then incr nblocked;
@@ -187,9 +201,9 @@ let finish (c : case) =
     | Some w -> incr nwit; List.iter (fun l -> bump (label_name l)) w
     | None -> ()
   end;
-  Printf.printf "RESULT %s %s accepted=%s depth=%d/%d at=%s c09=%d c10=%d c11=%d outcome=%s blocked=%s parks=%d shape=%s finals=%d oops=%b\n"
+  Printf.printf "RESULT %s %s accepted=%s depth=%d/%d at=%s c09=%d c10=%d c11=%d outcome=%s blocked=%s parks=%d shape=%s finals=%d oops=%b ms=%d\n"
     c.id c.family acc d n at v09 v10 v11 c.outcome (if c.blocked = "" then "-" else c.blocked) c.parks
-    (shape c evs) (List.length finals) oops
+    (shape c evs) (List.length finals) oops (int_of_float ((t1 -. t0) *. 1000.))
 
 (* ---- check A ---- *)
 let nmem = ref 0 and nmem_changed = ref 0 and nmem_dupdiff = ref 0 and nmis = ref 0
@@ -246,6 +260,8 @@ let () =
       | ["fix"; v] -> fix := (v = "1")
       | ["fix11"; v] -> fix11 := (v = "1")
       | ["fuel"; v] -> fuel := int_of_string v
+      | ["cap"; v] -> cap := int_of_string v
+      | ["budget"; v] -> budget := float_of_string v
       | ["cover"; v] -> cover := (v = "1")
       | _ -> ()) Sys.argv;
   let cur = ref None in
